@@ -89,6 +89,10 @@ class Reg(Logic):
             
         self.value = self.reset_value
         
+        # the register powers up holding its reset value (as the generated
+        # Verilog 'reg rq = reset_value' does), show it on the output
+        self.q.put(self.value)
+        
     def clock(self):
         setValue = True
         resetValue = False
